@@ -209,7 +209,8 @@ def gen_step(rng, fmt, dest_state, overwrite, fault, encoding, names, idx):
     ext = rng.pick(WRITE_EXT[fmt])
     if rng.chance(0.15):
         ext = ext.upper()
-    base = f'out{idx}'
+    base = rng.weighted([(f'out{idx}', 6), (f'out {idx}', 1),
+                         (f'r\u00e9g{idx}', 1)])
     if res == 'explicit':
         step['format'] = fmt
         name = base + ext
